@@ -24,8 +24,8 @@ theorem owns_eq_model :
     ∀ of ∈ Model.ownerFacts, ∀ ft ∈ of.2, (of.1 = Owner.global ∧ ft.1 = "forin") ∨ Spec.lookup dump.owns of.1 ft.1 = some ft.2 := by
   decide +kernel
 
-/-- for-in over the global object shows `console` and the user globals, nothing else -/
-theorem global_forin : Spec.lookup dump.owns .global "forin" = some (",".intercalate ("console" :: user)) := by decide +kernel
+/-- for-in over the global object shows the user globals, nothing else -/
+theorem global_forin : Spec.lookup dump.owns .global "forin" = some (if user.isEmpty then "-" else ",".intercalate user) := by decide +kernel
 
 set_option maxRecDepth 100000 in
 theorem forin_eq_model : ∀ kv ∈ Model.forIn, Spec.assoc kv.1 dump.forIn = some kv.2 := by decide +kernel
@@ -44,9 +44,9 @@ theorem matches_spec :
     ∀ e ∈ Spec.entries, Model.devEntry e.1 e.2.1 = "-" → Spec.lookup (Spec.stripUser user dump.ents) e.1 e.2.1 = some e.2.2 :=
   matches_spec_of_eq _ ents_eq_model
 
-/-- no own property of any §15 object is enumerable except `console` (and the user's own globals) -/
+/-- no own property of any §15 object is enumerable (except the user's own globals) -/
 theorem no_enumerable_builtin :
-    ∀ e ∈ Spec.flatten (Spec.stripUser user dump.ents), e.2.2.attrs.e = true → e.1 = Owner.global ∧ e.2.1 = "console" :=
+    ∀ e ∈ Spec.flatten (Spec.stripUser user dump.ents), e.2.2.attrs.e = false :=
   no_enumerable_of_eq _ ents_eq_model
 
 end OttoVerif.C14.Thm.Undercopy
